@@ -8,7 +8,7 @@ from asyncfix.errors import FIXError
 
 from .common import FExecType, FOrdSide, FOrdStatus, FOrdType
 
-RE_CLORD_ROOT = re.compile(r"^(.+)--(\d+)$", re.MULTILINE)
+RE_CLORD_ROOT = re.compile(r"(.+)--(\d+)\Z", re.DOTALL)
 
 
 class FIXNewOrderSingle:
